@@ -129,6 +129,22 @@ impl Mempool {
             tx_valid = transaction.validate(&blockchain.utxoset, blockchain, true);
         }
 
+        // a staking transaction is what the producer of a block affixes to it: bundle_block adds this
+        // node's own. one that a peer sent would ride along with it, and a block with two staking
+        // transactions is refused by every node, this one included
+        if transaction.transaction_type == TransactionType::BlockStake
+            && transaction
+                .from
+                .iter()
+                .any(|input| input.public_key != public_key)
+        {
+            debug!(
+                "staking transaction of another key is not pooled : {:?}",
+                transaction.signature.to_hex()
+            );
+            return;
+        }
+
         // validate
         if tx_valid {
             self.add_transaction(transaction).await;
